@@ -268,7 +268,7 @@ func main() {
 	os.MkdirAll(gen, 0755)
 
 	var out []*leanFile
-	out = append(out, genEnvelope(), genLog())
+	out = append(out, genEnvelope(), genLog(), genRetention(), genCompact())
 
 	keep := map[string]bool{}
 	for _, l := range out {
